@@ -23,7 +23,7 @@ ASSUMPTIONS = [
     'unpivot regex names are patterns that cannot match the empty string',
 ]
 BUDGET = {'quick': dict(examples=2400, shards=8, seconds=70),
-          'thorough': dict(examples=60000, shards=16, seconds=1200)}
+          'thorough': dict(examples=200000, shards=16, seconds=1200)}
 
 RES = ['res1', 'res2']
 KEY_TYPES = ['string', 'integer', 'number', 'boolean', 'date']
